@@ -25,6 +25,7 @@ import (
 
 type C17Job struct {
 	Src    []byte   `json:"src"`
+	Text   []byte   `json:"text,omitempty"` // a source text for lexer and parser together
 	Toks   []string `json:"toks"`
 	FailAt int      `json:"fail_at"`
 }
@@ -100,6 +101,7 @@ func init() {
 						j.Toks = append(j.Toks, u.c.Terms[t])
 					}
 				}
+				j.Text = gen.SourceFor(rt, u.m, j.Toks)
 				if rapid.IntRange(0, 5).Draw(rt, "injectFail") == 0 {
 					j.FailAt = rapid.IntRange(0, 4).Draw(rt, "failAt")
 				}
@@ -119,10 +121,12 @@ func init() {
 }
 
 type c17Res struct {
-	toks []subj.Tok
-	key  string
-	msg  string
-	text string
+	toks   []subj.Tok
+	key    string
+	msg    string
+	text   string
+	tokmod int
+	whole  subj.SourceObs
 }
 
 func sameToks(a, b []subj.Tok) bool {
@@ -130,7 +134,7 @@ func sameToks(a, b []subj.Tok) bool {
 		return false
 	}
 	for i := range a {
-		if a[i].Type != b[i].Type || !bytes.Equal(a[i].Lit, b[i].Lit) || a[i].Off != b[i].Off || a[i].Line != b[i].Line || a[i].Col != b[i].Col || a[i].Ctx != b[i].Ctx {
+		if a[i].Type != b[i].Type || !bytes.Equal(a[i].Lit, b[i].Lit) || a[i].Off != b[i].Off || a[i].Line != b[i].Line || a[i].Col != b[i].Col || a[i].Ctx != b[i].Ctx || a[i].Aux != b[i].Aux {
 			return false
 		}
 	}
@@ -153,7 +157,28 @@ func evalC17(r *runner, u *c17Unit, c C17Case) string {
 		o := sess.Parse(typed(ps, j.Toks), j.FailAt, true)
 		res.key, res.msg = obsKey(o), o.ErrString
 		res.text = o.Result.Short(4)
+		res.tokmod = o.TokenModified
+		res.whole = sess.ParseSource(j.Text)
+		res.key += " whole: " + res.whole.Key()
 		return res
+	}
+	// the inputs are shared by the goroutines (and read-only for the generated
+	// code): what they hold now is what they must hold at the end
+	type saved struct{ src, text []byte }
+	orig := make([]saved, len(c.Jobs))
+	for i, j := range c.Jobs {
+		orig[i] = saved{append([]byte{}, j.Src...), append([]byte{}, j.Text...)}
+	}
+	intact := func(when string) string {
+		for i, j := range c.Jobs {
+			if !bytes.Equal(j.Src, orig[i].src) {
+				return fmt.Sprintf("grammar:\n%s\nvariant %q: %s, the input buffer of job %d, shared by the goroutines and owned by the caller, was written to: %q became %q", u.src, c.Variant, when, i, orig[i].src, j.Src)
+			}
+			if !bytes.Equal(j.Text, orig[i].text) {
+				return fmt.Sprintf("grammar:\n%s\nvariant %q: %s, the source text of job %d, shared by the goroutines and owned by the caller, was written to: %q became %q", u.src, c.Variant, when, i, orig[i].text, j.Text)
+			}
+		}
+		return ""
 	}
 	// The concurrent rounds run FIRST, on whatever state the process is in: a
 	// lazily filled shared cache is written on first use, and a sequential
@@ -179,10 +204,16 @@ func evalC17(r *runner, u *c17Unit, c C17Case) string {
 		wg.Wait()
 		r.col.Eval()
 	}
+	if msg := intact("after the concurrent rounds"); msg != "" {
+		return msg
+	}
 	want := make([]c17Res, len(c.Jobs))
 	failing := 0
 	for i, j := range c.Jobs {
 		want[i] = do(ps.NewSession(), j)
+		if want[i].tokmod >= 0 {
+			return fmt.Sprintf("grammar:\n%s\nvariant %q, job %d (tokens %v): the literal of token #%d, an object owned by the scanner, was written to by Parse or by rendering its error", u.src, c.Variant, i, j.Toks, want[i].tokmod)
+		}
 		if strings.HasPrefix(want[i].key, "errnil=false") {
 			failing++
 		}
@@ -198,6 +229,9 @@ func evalC17(r *runner, u *c17Unit, c C17Case) string {
 				return fmt.Sprintf("grammar:\n%s\nvariant %q, %d goroutines, round %d: goroutine %d, job %d (tokens %v): concurrently\n  %s\n  %q\nalone\n  %s\n  %q", u.src, c.Variant, c.Goroutines, round, g, i, c.Jobs[i].Toks, res.text+" "+res.key, res.msg, want[i].text+" "+want[i].key, want[i].msg)
 			}
 		}
+	}
+	if msg := intact("after the sequential runs"); msg != "" {
+		return msg
 	}
 	if failing > 0 && c.Goroutines >= 2 && len(c.Jobs) >= 2 {
 		r.col.NonTrivial(ev.Hash(u.src, c.Variant, fmt.Sprint(c.Jobs), fmt.Sprint(c.Goroutines)), func() any {
